@@ -149,6 +149,7 @@ def handle (toks : List String) : String :=
   | "ref.setsep" :: _ => (DriverRef.handle toks).getD "bad-op"
   | "ref.build" :: _ => (DriverRef.handle toks).getD "bad-op"
   | "ref.inst" :: _ => (DriverRef.handle toks).getD "bad-op"
+  | "ref.bybet" :: _ => (DriverRef.handle toks).getD "bad-op"
   | _ => "bad-op"
 
 partial def loop (h : IO.FS.Stream) (out : IO.FS.Stream) (sess : DriverWorld.Session) : IO Unit := do
